@@ -51,6 +51,8 @@ class World:
     """outcome(parent type, field name, field type, path, canonical args) -> raw outcome.
 
     raw values: None | leaf JSON (int/str/bool/{"$float": repr}/[1]) | ("list", [raw]) | ("obj", typename)
+                | ("raise", [raw], message, "list")   a lazy iterable: yields the items, then raises ResolverError
+                | ("raise", [], message, "obj")       an abstract-type value whose type resolution raises ResolverError
     outcomes:   ("val", raw) | ("err", message, ext or None) | ("boom",)
     """
 
@@ -97,13 +99,18 @@ class World:
             if self.mode == 1 and mix(h, 0) % 16 == 7:
                 return 5
             n = mix(h, 1) % 4
-            return ("list", [self.gen(mix(h, 2 + i), t["t"]) for i in range(n)])
+            items = [self.gen(mix(h, 2 + i), t["t"]) for i in range(n)]
+            if mix(h, 9) % 16 == 9:
+                return ("raise", items, "R%d" % (h % 1000), "list")
+            return ("list", items)
         name = t["n"]
         td = self.types.get(name)
         kind = td["kind"] if td else "scalar"
         if kind == "object":
             return ("obj", name)
         if kind in ("interface", "union"):
+            if mix(h, 9) % 16 == 9:
+                return ("raise", [], "T%d" % (h % 1000), "obj")
             if self.mode == 1:
                 a = mix(h, 0) % 4
                 if a == 2:
@@ -125,12 +132,94 @@ class World:
         return table[mix(h, 1) % len(table)]
 
 
-def raw_to_py(raw):
-    """raw world value -> the Python value a resolver returns"""
+_WERR = []
+
+
+def werr_class():
+    """the ResolverError subclass raised by worlds (created lazily: py_gql is imported by the caller's PYGQL_REPO)"""
+    if not _WERR:
+        from py_gql.exc import ResolverError
+
+        class WErr(ResolverError):
+            from_world = True
+        _WERR.append(WErr)
+    return _WERR[0]
+
+
+class RaisingTypename(object):
+    """a value of an abstract type whose type resolution raises ResolverError: the default resolution reads
+    ``__typename__`` (this property), an installed ``resolve_type`` reads it too"""
+
+    def __init__(self, msg):
+        self._msg = msg
+
+    @property
+    def __typename__(self):
+        raise werr_class()(self._msg)
+
+
+class Obj(object):
+    """ONE generic Python class for the runtime values of EVERY object type: the GraphQL type name is INSTANCE state
+    (a per-class memo of `__typename__` would complete all of them as the first one's type)"""
+
+    def __init__(self, typename, **fields):
+        self.__typename__ = typename
+        for k, v in fields.items():
+            setattr(self, k, v)
+
+
+class DictSub(dict):
+    """a Mapping that is not exactly `dict`"""
+
+
+class PropObj(object):
+    """`__typename__` as a property over instance state"""
+
+    def __init__(self, typename):
+        self._tn = typename
+
+    @property
+    def __typename__(self):
+        return self._tn
+
+
+OBJ_STYLES = ("dict", "Obj", "SimpleNamespace", "dict-subclass", "property", "mixed")
+_OBJ_COUNTER = [0]
+
+
+def make_obj(typename, style):
+    """the runtime value of an object of GraphQL type `typename` (the world's resolvers ignore its content)"""
+    import types as _t
+    if style == 5:
+        _OBJ_COUNTER[0] += 1
+        style = _OBJ_COUNTER[0] % 5
+    if style == 1:
+        return Obj(typename)
+    if style == 2:
+        return _t.SimpleNamespace(__typename__=typename)
+    if style == 3:
+        return DictSub(__typename__=typename)
+    if style == 4:
+        return PropObj(typename)
+    return {"__typename__": typename}
+
+
+def _lazy_items(items, msg, style):
+    for x in items:
+        yield raw_to_py(x, style)
+    raise werr_class()(msg)
+
+
+def raw_to_py(raw, style=0):
+    """raw world value -> the Python value a resolver returns; `style` picks the Python representation of objects"""
     if isinstance(raw, tuple):
         if raw[0] == "list":
-            return [raw_to_py(x) for x in raw[1]]
-        return {"__typename__": raw[1]}
+            return [raw_to_py(x, style) for x in raw[1]]
+        if raw[0] == "raise":
+            if raw[3] == "list":
+                return _lazy_items(raw[1], raw[2], style)
+            return RaisingTypename(raw[2])
+        return make_obj(raw[1], style)
     if isinstance(raw, dict) and "$float" in raw:
         return float(raw["$float"])
     return raw
@@ -153,11 +242,21 @@ class Holder:
 
 
 def install_world(schema, holder):
-    from py_gql.exc import ResolverError
     from canon_schema import ty_of
+    from py_gql.schema import InterfaceType, UnionType
 
-    class WErr(ResolverError):
-        from_world = True
+    WErr = werr_class()
+
+    def resolve_type(value, ctx, info):
+        # what the default resolution does, as a user-supplied `resolve_type` (raises for RaisingTypename)
+        if isinstance(value, dict):
+            return value.get("__typename__", None)
+        return getattr(value, "__typename__", None)
+
+    # every other abstract type gets an explicit `resolve_type`; the rest keep the executor's default resolution
+    for t in schema.types.values():
+        if isinstance(t, (InterfaceType, UnionType)) and fnv(t.name) % 2 == 0:
+            t.resolve_type = resolve_type
 
     def resolver(root, ctx, info, **args):
         holder.calls += 1
@@ -172,7 +271,7 @@ def install_world(schema, holder):
             raise WErr(o[1], extensions=o[2])
         if o[0] == "boom":
             raise WorldError("unexpected")
-        return raw_to_py(o[1])
+        return raw_to_py(o[1], w.seed % len(OBJ_STYLES))
 
     schema.default_resolver = resolver
     return resolver
@@ -341,6 +440,10 @@ def canon_error(e):
                 "ext": canon_value(dict(e.extensions)) if e.extensions else None}
     if isinstance(e, CoercionError):
         return {"kind": "coercion", "path": path, "locs": locs, "msg": None, "ext": None}
+    if isinstance(getattr(e, "__cause__", None), CoercionError):
+        # `ResolutionContext.collect_fields`: invalid @skip/@include condition at run time (4e87d3d). Its nodes are the
+        # directive argument's (not modelled); no path when the ROOT selection set could not be collected.
+        return {"kind": "directive", "path": path if path is not None else [], "locs": [], "msg": None, "ext": None}
     return {"kind": "nonnull", "path": path, "locs": locs, "msg": None, "ext": None}
 
 
@@ -396,6 +499,15 @@ class SpecInternal(Exception):
     pass
 
 
+class SpecRaise(Exception):
+    """a field error raised while a value is COMPLETED (or while its selection set is collected): it nulls the nearest
+    enclosing field; errors recorded before stay recorded"""
+
+    def __init__(self, kind, msg=None, ext=None, locs=None):
+        Exception.__init__(self, kind)
+        self.kind, self.msg, self.ext, self.locs = kind, msg, ext, locs
+
+
 def truthy(v):
     return bool(v)
 
@@ -421,9 +533,9 @@ class PySpec:
             c = d["if"]
             if "lit" in c:
                 return c["lit"]
-            if "var" in c and c["var"] in self.vars:
+            if "var" in c and c["var"] in self.vars and self.vars[c["var"]] is not None:
                 return truthy(self.vars[c["var"]])
-            raise SpecInternal("CoercionError")
+            raise SpecInternal("CoercionError")     # not a Boolean at run time: list literal, variable bound to null
         s = skip is not None and val(skip)
         i = inc is None or val(inc)
         return s or not i
@@ -478,7 +590,12 @@ class PySpec:
         return None
 
     def execute_selection_set(self, obj, sels, path):
-        grouped = self.collect(obj, sels, set())
+        try:
+            grouped = self.collect(obj, sels, set())
+        except SpecInternal as e:
+            if str(e) == "CoercionError":
+                raise SpecRaise("directive", locs=[])
+            raise
         out = {}
         for key, nodes in grouped.items():
             fd = self.field_def(obj, nodes[0]["name"])
@@ -501,7 +618,12 @@ class PySpec:
             return None
         if o[0] == "boom":
             raise SpecInternal("unexpected")
-        return self.complete(fd["type"], nodes, path, o[1])
+        try:
+            return self.complete(fd["type"], nodes, path, o[1])
+        except SpecRaise as e:
+            self.errors.append({"kind": e.kind, "path": path, "locs": e.locs if e.locs is not None else [node["loc"]],
+                                "msg": e.msg, "ext": e.ext})
+            return None
 
     def complete(self, t, nodes, path, raw):
         if t["k"] == "nonNull":
@@ -516,6 +638,10 @@ class PySpec:
         if raw is None:
             return None
         if t["k"] == "list":
+            if isinstance(raw, tuple) and raw[0] == "raise" and raw[3] == "list":
+                for i, x in enumerate(raw[1]):
+                    self.complete(t["t"], nodes, path + [i], x)
+                raise SpecRaise("resolver", raw[2])
             if not (isinstance(raw, tuple) and raw[0] == "list"):
                 raise SpecInternal("RuntimeError")
             return [self.complete(t["t"], nodes, path + [i], x) for i, x in enumerate(raw[1])]
@@ -532,6 +658,8 @@ class PySpec:
                     return v["name"]
             raise SpecInternal("RuntimeError")
         if kind in ("interface", "union"):
+            if isinstance(raw, tuple) and raw[0] == "raise":
+                raise SpecRaise("resolver", raw[2])
             if not (isinstance(raw, tuple) and raw[0] == "obj"):
                 raise SpecInternal("RuntimeError")
             rt = raw[1]
@@ -624,6 +752,9 @@ def py_spec_run(schema_d, docj, opname, variables, world):
     sp = PySpec(schema_d, docj, variables, world)
     try:
         data = sp.execute_selection_set(root, op["sels"], [])
+    except SpecRaise as e:
+        # the root selection set cannot be collected: no data, one error without path
+        return {"data": None, "errors": sp.errors + [{"kind": e.kind, "path": [], "locs": e.locs or [], "msg": e.msg, "ext": e.ext}]}
     except SpecInternal as e:
         return {"internal": str(e)}
     except RecursionError:
